@@ -1,15 +1,15 @@
 """C04: see DESIGN.md section 3 C04."""
-from _ccmon import standard_plan, floor_msgs, COMMON_ASSUMPTIONS, EVOLVE_NOTE
+from _ccmon import standard_plan, floor_msgs, COMMON_ASSUMPTIONS, EVOLVE_NOTE, FAULT_NOTE
 
 LEVEL = "exploration"
 RULE = 'histories are generated per shard from (seed, index) by harness/src/gen.rs (weights of mode C04: drops, slot rewrites and moves raised, fewer collections) plus the directed corpus harness/src/directed.rs; each is executed against the real crate with all oracles on, followed by an epilogue that releases everything and collects until quiet. distinct = distinct expanded operation lists (FNV hash); non-trivial iff a last-owner drop happened outside a collection (cascade invariant evaluated) and at least 2 objects were reclaimed by reference counting'
-RULE += EVOLVE_NOTE
+RULE += EVOLVE_NOTE + FAULT_NOTE
 ASSUMPTIONS = COMMON_ASSUMPTIONS
 FLOORS = {'oracle_strong_count_checks': 100000, 'cascade_checks': 2000, 'objects_reclaimed_by_refcount': 2000}
 
 
 def plan(ctx):
-    return standard_plan(ctx, "C04", mode="C04")
+    return standard_plan(ctx, "C04", mode="C04", after_faults=True)
 
 
 def floors(ctx, evaluations, distinct, counters, sets):
